@@ -143,6 +143,10 @@ func TestVerifC12_fp64(t *testing.T) {
 	}
 	f.CheckPred(r, bf.Pred{Name: "IsZero", Do: func(x bf.Elem) bool { return e(x).IsZero() }, Ref: bf.RefIsZero}, all)
 	f.CheckPred(r, bf.Pred{Name: "IsOne", Do: func(x bf.Elem) bool { return e(x).IsOne() }, Ref: bf.RefIsOne}, all)
+	f.CheckBitFlips(r, bf.BitFlip{Coords: 1, Bits: 8 * fp.Size, P: P, R: bf.Pow2(8 * fp.Size), Limit: P,
+		IsZero: func(x bf.Elem) bool { return e(x).IsZero() }, IsOne: func(x bf.Elem) bool { return e(x).IsOne() }, IsEqual: func(x, y bf.Elem) bool { return e(x).IsEqual(e(y)) }},
+		[]bf.Operand{{V: new(big.Int), Name: "0"}, {V: big.NewInt(1), Name: "1"}, {V: new(big.Int).Sub(P, big.NewInt(1)), Name: "p-1"}, {V: bf.Pseudo("prio3-pred", 0, P), Name: "pseudo0"}, {V: bf.Pseudo("prio3-pred", 1, P), Name: "pseudo1"}})
+	r.RequireCounter(c12Name+".predicates.one-bit-neighbours", int64(4*(8*fp.Size-1)))
 	r.RequireCounter(c12Name+".IsZero.true", 1)
 	r.RequireCounter(c12Name+".IsOne.true", 1)
 	neq := 0
